@@ -163,8 +163,8 @@ EXTRA_FILES = {
     "incs/inc_decl.f90": "      integer :: inc_var_a\n      real :: inc_var_b\n",
     "incs/incuser1.f90": "module iu1\n  implicit none\n  include 'inc_decl.f90'\ncontains\n  subroutine iu1_s()\n    inc_var_a = 1\n  end subroutine iu1_s\nend module iu1\n",
     "incs/incuser2.f90": "subroutine iu2()\n  implicit none\n  include 'inc_decl.f90'\n  inc_var_b = 2.0\nend subroutine iu2\n",
-    "smods/smodp.f90": "module smodp\n  implicit none\n  interface\n    module subroutine sm_work(a)\n      integer, intent(inout) :: a\n    end subroutine sm_work\n    module function sm_fun(b) result(r)\n      integer, intent(in) :: b\n      integer :: r\n    end function sm_fun\n  end interface\n  integer :: sm_state\nend module smodp\n",
-    "smods/smodc.f90": "submodule (smodp) smodc\n  implicit none\n  integer :: sm_local\ncontains\n  module subroutine sm_work(a)\n    integer, intent(inout) :: a\n    a = a + sm_state + sm_local\n  end subroutine sm_work\n  module function sm_fun(b) result(r)\n    integer, intent(in) :: b\n    integer :: r\n    r = b + sm_state\n  end function sm_fun\nend submodule smodc\n",
+    "smods/smodp.f90": "module smodp\n  implicit none\n  interface\n    module subroutine sm_work(a)\n      integer, intent(inout) :: a\n    end subroutine sm_work\n    module function sm_fun(b) result(r)\n      integer, intent(in) :: b\n      integer :: r\n    end function sm_fun\n    module subroutine sm_short(c, d)\n      real, intent(in) :: c\n      real, intent(out) :: d\n    end subroutine sm_short\n  end interface\n  integer :: sm_state\nend module smodp\n",
+    "smods/smodc.f90": "submodule (smodp) smodc\n  implicit none\n  integer :: sm_local\ncontains\n  module subroutine sm_work(a)\n    integer, intent(inout) :: a\n    a = a + sm_state + sm_local\n  end subroutine sm_work\n  module function sm_fun(b) result(r)\n    integer, intent(in) :: b\n    integer :: r\n    r = b + sm_state\n  end function sm_fun\n  module procedure sm_short\n    d = c * 2.0 + sm_state\n  end procedure sm_short\nend submodule smodc\n",
     "ppa/pp_a.F90": "#include \"hdr_a.h\"\nmodule pp_a\n  implicit none\n#ifdef ONLY_PP_A_MACRO\n  integer :: pp_a_hdr_seen\n#else\n  integer :: pp_a_hdr_missing\n#endif\nend module pp_a\n",
     "ppb/pp_b.F90": "module pp_b\n  implicit none\n  integer :: pp_b_var\nend module pp_b\n",
     "ppb/hdr_a.h": "#define ONLY_PP_A_MACRO 1\n",
